@@ -151,7 +151,7 @@ Lemma get_attribute_sound : forall q s n e r,
      q_helper_served q = true /\
      exists t, n = NStr t /\ is_private t = false /\ inst_lookup s t = Some m /\ m_kind m = KHelper true true).
 Proof.
-  intros q s n e r Hq H. unfold repaired in Hq. destruct Hq as [Hq1 Hq2]. unfold Expose.get_attribute in H.
+  intros q s n e r Hq H. unfold repaired in Hq. destruct Hq as [Hq1 [Hq2 Hq3]]. unfold Expose.get_attribute in H.
   assert (TRIV : forall (e0 : list effect), e0 = [] -> forall m a, In (m, a) e0 -> False) by (intros; subst; auto).
   destruct n as [t|]; [|inversion H; repeat split; intros; try discriminate; exfalso; eauto].
   destruct (is_private t) eqn:Ep; [inversion H; repeat split; intros; try discriminate; exfalso; eauto|].
@@ -248,7 +248,7 @@ Lemma serve_attr_cases : forall q s a n,
      is_private t = false /\ class_lookup s t = Some m /\ m_kind m = KProp g st d /\
      (match a with AGet => present g | ASet => present st | _ => false end) = true /\ exposed s m = true).
 Proof.
-  intros q s a n Hq. unfold repaired in Hq. destruct Hq as [_ Hq]. unfold Expose.serve_attr.
+  intros q s a n Hq. unfold repaired in Hq. destruct Hq as [_ [Hq _]]. unfold Expose.serve_attr, Expose.serve_attr_oe.
   destruct n as [t|]; [|left; reflexivity].
   rewrite Hq. simpl. destruct (is_private t) eqn:Ep; [left; reflexivity|].
   destruct (class_lookup s t) as [m|] eqn:El; [|left; reflexivity].
@@ -301,6 +301,28 @@ Qed.
 Lemma fst_serve : forall q s r, fst (serve q s r) = fst (serve_core is_private q s r).
 Proof. intros. unfold Expose.serve. destruct (serve_core is_private q s r). reflexivity. Qed.
 
+Lemma attr_request_indexed : forall q s a r,
+  indexed q -> attr_request is_private q s a r = if r_missing r then ([], false) else serve_attr q s a (first_name r).
+Proof.
+  intros q s a r Hq. unfold indexed in Hq. destruct Hq as [Hg Hs].
+  unfold attr_request, form_of. destruct a; rewrite ?Hg, ?Hs; reflexivity.
+Qed.
+
+Lemma safe_bind : forall f r, safe_form f -> bind_only_exposed f r = Some true \/ bind_only_exposed f r = None.
+Proof. intros f r [H|H]; subst f; simpl; [left; reflexivity|]. destruct (r_surplus r); auto. Qed.
+
+Lemma form_safe : forall q a, repaired q -> safe_form (form_of q (match a with ASet => TSet | _ => TGet end)).
+Proof. intros q a Hq. unfold repaired in Hq. destruct Hq as [_ [_ [Hg Hs]]]. unfold form_of. destruct a; auto. Qed.
+
+(* with a safe call form an attribute request is the helper call on the indexed name, or an error *)
+Lemma attr_request_safe : forall q s a r,
+  repaired q -> attr_request is_private q s a r = ([], false) \/
+                attr_request is_private q s a r = serve_attr q s a (first_name r).
+Proof.
+  intros q s a r Hq. unfold attr_request. destruct (r_missing r); [left; reflexivity|].
+  destruct (safe_bind _ r (form_safe q a Hq)) as [X|X]; rewrite X; [right; reflexivity|left; reflexivity].
+Qed.
+
 (* gate soundness for every variant with the two repairs: whatever runs is allowed by the property, or lies
    exactly within the boundary of one of the two open deviations the variant has *)
 Lemma gate_sound_gen : forall q s r m a,
@@ -310,17 +332,23 @@ Proof.
   destruct (r_kind r) eqn:Ek; intros Hin.
   - apply allowed_first. eapply serve_call_sound; eauto.
   - apply serve_batch_sound; auto.
-  - left. assert (L : legit s RGet [first_name r] m a) by (eapply serve_attr_sound; eauto).
+  - destruct (attr_request_safe q s AGet r Hq) as [Y|Y]; rewrite Y in Hin; [destruct Hin|].
+    left. assert (L : legit s RGet [first_name r] m a) by (eapply serve_attr_sound; eauto).
     destruct (allowed_first q s RGet r m a (or_introl L)) as [X|[[_ [X _]]|[_ [X _]]]]; [auto| |];
       subst a; unfold Expose.legit, acc_fits in L; tauto.
-  - left. assert (L : legit s RSet [first_name r] m a) by (eapply serve_attr_sound; eauto).
+  - destruct (attr_request_safe q s ASet r Hq) as [Y|Y]; rewrite Y in Hin; [destruct Hin|].
+    left. assert (L : legit s RSet [first_name r] m a) by (eapply serve_attr_sound; eauto).
     destruct (allowed_first q s RSet r m a (or_introl L)) as [X|[[_ [X _]]|[_ [X _]]]]; [auto| |];
       subst a; unfold Expose.legit, acc_fits in L; tauto.
 Qed.
 
 Lemma repaired_none : repaired quirks_none.
-Proof. split; reflexivity. Qed.
+Proof. repeat split; try reflexivity; left; reflexivity. Qed.
 Lemma repaired_asis : repaired quirks_asis.
+Proof. repeat split; try reflexivity; left; reflexivity. Qed.
+Lemma indexed_none : indexed quirks_none.
+Proof. split; reflexivity. Qed.
+Lemma indexed_asis : indexed quirks_asis.
 Proof. split; reflexivity. Qed.
 
 (* the property's behaviour: only legitimate effects *)
@@ -353,7 +381,7 @@ Qed.
 Lemma plain_get_attribute : forall q s n,
   repaired q -> plain_shape s = true -> get_attribute q s n = get_attribute quirks_none s n.
 Proof.
-  intros q s n Hq Hp. unfold repaired in Hq. destruct Hq as [Hq1 Hq2]. unfold Expose.get_attribute, hook_effect.
+  intros q s n Hq Hp. unfold repaired in Hq. destruct Hq as [Hq1 [Hq2 Hq3]]. unfold Expose.get_attribute, hook_effect.
   rewrite !(plain_no_hook s _ Hp). rewrite Hq1. simpl.
   destruct n as [t|]; [|reflexivity].
   destruct (is_private t); [reflexivity|].
@@ -380,11 +408,12 @@ Proof.
 Qed.
 
 Lemma plain_agrees : forall q s r,
-  repaired q -> plain_shape s = true -> serve q s r = serve quirks_none s r.
+  repaired q -> indexed q -> plain_shape s = true -> serve q s r = serve quirks_none s r.
 Proof.
-  intros q s r Hq Hp. unfold Expose.serve, serve_core.
-  assert (A : forall a n, serve_attr q s a n = serve_attr quirks_none s a n).
-  { intros a n. unfold Expose.serve_attr. destruct Hq as [_ Hq]. rewrite Hq. reflexivity. }
+  intros q s r Hq Hi Hp. unfold Expose.serve, serve_core.
+  assert (A : forall a, attr_request is_private q s a r = attr_request is_private quirks_none s a r).
+  { intros a. rewrite !attr_request_indexed by auto using indexed_none.
+    unfold Expose.serve_attr, Expose.serve_attr_oe. unfold repaired in Hq. destruct Hq as [_ [Hq _]]. rewrite Hq. reflexivity. }
   destruct (r_kind r); rewrite ?plain_serve_call, ?plain_serve_batch, ?A; auto.
 Qed.
 
@@ -407,11 +436,13 @@ Qed.
 
 Lemma single_dichotomy : forall s k ow n,
   k <> RBatch ->
-  let r := {| r_kind := k; r_oneway := ow; r_names := [n] |} in
+  let r := (mkreq k ow [n]) in
   serve quirks_none s r = ([], reply_refused ow) \/
   exists m a, serve quirks_none s r = ([(m, a)], reply_ok ow).
 Proof.
-  intros s k ow n Hk r. unfold Expose.serve, serve_core, first_name, reply_refused, reply_ok. simpl.
+  intros s k ow n Hk r. unfold Expose.serve, serve_core, attr_request, first_name, reply_refused, reply_ok. simpl.
+  change (serve_attr_oe is_private quirks_none s AGet n true) with (serve_attr quirks_none s AGet n).
+  change (serve_attr_oe is_private quirks_none s ASet n true) with (serve_attr quirks_none s ASet n).
   destruct k; try congruence.
   - destruct (serve_call_cases s n) as [H|[t [m [_ [H _]]]]]; rewrite H; [left|right; exists m, ACall]; destruct ow; reflexivity.
   - destruct (serve_attr_cases quirks_none s AGet n repaired_none) as [H|[t [m [g [st [d [_ [H _]]]]]]]]; rewrite H; [left|right; exists m, AGet]; destruct ow; reflexivity.
@@ -421,10 +452,10 @@ Qed.
 (* completeness: a request the property allows is served, exactly once, with a normal result *)
 Lemma exposed_served : forall s k ow t m a,
   k <> RBatch -> may_serve s k t m a ->
-  serve quirks_none s {| r_kind := k; r_oneway := ow; r_names := [NStr t] |} = ([(m, a)], reply_ok ow).
+  serve quirks_none s (mkreq k ow [NStr t]) = ([(m, a)], reply_ok ow).
 Proof.
   intros s k ow t m a Hk [Hd [Hp [Hf He]]].
-  unfold Expose.serve, serve_core, first_name, reply_ok. simpl.
+  unfold Expose.serve, serve_core, attr_request, first_name, reply_ok. simpl.
   destruct k; try congruence; simpl in Hd.
   - (* call *)
     destruct a; simpl in Hf; try (destruct Hf as [Hf _]; first [discriminate | destruct Hf; discriminate]); try tauto.
@@ -445,14 +476,14 @@ Proof.
     pose proof (class_lookup_some _ _ _ Hd) as [_ [_ Hname]].
     assert (Hx : exposed s m = true).
     { apply rule_exposed; auto. unfold markable, is_prop. rewrite Hkind. apply orb_true_r. rewrite Hname. auto. }
-    unfold Expose.serve_attr. simpl. rewrite Hp, Hd, Hkind, Hx. destruct ow; reflexivity.
+    unfold Expose.serve_attr_oe. simpl. rewrite Hp, Hd, Hkind, Hx. destruct ow; reflexivity.
   - (* set *)
     destruct a; simpl in Hf; try (destruct Hf as [Hf _]; first [discriminate | destruct Hf; discriminate]); try tauto.
     destruct Hf as [_ [g [b [d Hkind]]]].
     pose proof (class_lookup_some _ _ _ Hd) as [_ [_ Hname]].
     assert (Hx : exposed s m = true).
     { apply rule_exposed; auto. unfold markable, is_prop. rewrite Hkind. apply orb_true_r. rewrite Hname. auto. }
-    unfold Expose.serve_attr. simpl. rewrite Hp, Hd, Hkind, Hx. destruct ow; reflexivity.
+    unfold Expose.serve_attr_oe. simpl. rewrite Hp, Hd, Hkind, Hx. destruct ow; reflexivity.
 Qed.
 
 (* the batch loop, for every variant: the effects of the attempted members in order; it succeeds iff all are served *)
@@ -476,12 +507,61 @@ Proof.
 Qed.
 
 Lemma serve_result_core : forall q s k n e,
-  serve q s {| r_kind := k; r_oneway := false; r_names := [n] |} = (e, RepResult) ->
-  serve_core is_private q s {| r_kind := k; r_oneway := false; r_names := [n] |} = (e, true).
+  serve q s (mkreq k false [n]) = (e, RepResult) ->
+  serve_core is_private q s (mkreq k false [n]) = (e, true).
 Proof.
   intros q s k n e. unfold Expose.serve.
-  destruct (serve_core is_private q s {| r_kind := k; r_oneway := false; r_names := [n] |}) as [e' ok].
+  destruct (serve_core is_private q s (mkreq k false [n])) as [e' ok].
   simpl. destruct ok; intros H; inversion H; reflexivity.
+Qed.
+
+(* ---------- the shape of the request beyond the names ---------- *)
+(* surplus positional arguments and keyword arguments never change what the gate decides *)
+Lemma surplus_ignored : forall q s r,
+  indexed q -> serve q s r = serve q s (strip_surplus r).
+Proof.
+  intros q s r Hq. unfold Expose.serve, serve_core.
+  change (r_kind (strip_surplus r)) with (r_kind r). change (r_names (strip_surplus r)) with (r_names r).
+  change (r_oneway (strip_surplus r)) with (r_oneway r). change (first_name (strip_surplus r)) with (first_name r).
+  rewrite !attr_request_indexed by auto. reflexivity.
+Qed.
+
+Lemma attr_request_strip : forall q s a r,
+  repaired q ->
+  attr_request is_private q s a (strip_surplus r) = if r_missing r then ([], false) else serve_attr q s a (first_name r).
+Proof.
+  intros q s a r Hq. unfold attr_request.
+  change (r_missing (strip_surplus r)) with (r_missing r). change (first_name (strip_surplus r)) with (first_name r).
+  destruct (r_missing r); [reflexivity|].
+  pose proof (form_safe q a Hq) as F. destruct F as [F|F]; rewrite F; reflexivity.
+Qed.
+
+(* ... and with any safe call form (arguments by index, with or without an argument-count check) surplus arguments
+   are ignored or make the request an error: they never widen access *)
+Lemma surplus_never_widens : forall q s r,
+  repaired q ->
+  serve q s r = serve q s (strip_surplus r) \/ serve q s r = ([], reply_refused (r_oneway r)).
+Proof.
+  intros q s r Hq.
+  assert (C : serve_core is_private q s r = serve_core is_private q s (strip_surplus r) \/
+              serve_core is_private q s r = ([], false)).
+  { unfold serve_core. change (r_kind (strip_surplus r)) with (r_kind r). change (r_names (strip_surplus r)) with (r_names r).
+    change (first_name (strip_surplus r)) with (first_name r).
+    destruct (r_kind r); auto; rewrite attr_request_strip by auto.
+    - destruct (attr_request_safe q s AGet r Hq) as [X|X]; [auto|]. unfold attr_request in *. destruct (r_missing r); auto.
+    - destruct (attr_request_safe q s ASet r Hq) as [X|X]; [auto|]. unfold attr_request in *. destruct (r_missing r); auto. }
+  unfold Expose.serve. change (r_oneway (strip_surplus r)) with (r_oneway r).
+  destruct C as [C|C]; rewrite C; [left; reflexivity|right].
+  unfold reply_refused. destruct (r_oneway r); reflexivity.
+Qed.
+
+(* an attribute request that lacks its name (or its value) is refused, in every variant *)
+Lemma missing_refused : forall q s r,
+  r_missing r = true -> r_kind r = RGet \/ r_kind r = RSet ->
+  serve q s r = ([], reply_refused (r_oneway r)).
+Proof.
+  intros q s r Hm Hk. unfold Expose.serve, serve_core, attr_request, reply_refused.
+  destruct Hk as [Hk|Hk]; rewrite Hk, Hm; destruct (r_oneway r); reflexivity.
 Qed.
 
 (* ---------- metadata ---------- *)
@@ -518,9 +598,9 @@ Proof.
 Qed.
 
 Definition runs_call (q : quirks) (s : shape) (n : text) : Prop :=
-  exists m, serve q s {| r_kind := RCall; r_oneway := false; r_names := [NStr n] |} = ([(m, ACall)], RepResult).
+  exists m, serve q s (mkreq RCall false [NStr n]) = ([(m, ACall)], RepResult).
 Definition runs_attr (q : quirks) (s : shape) (k : rkind) (a : acc) (n : text) : Prop :=
-  exists m, serve q s {| r_kind := k; r_oneway := false; r_names := [NStr n] |} = ([(m, a)], RepResult).
+  exists m, serve q s (mkreq k false [NStr n]) = ([(m, a)], RepResult).
 
 Lemma exposed_rule_of : forall s m, exposed s m = true -> exposed_by_rule s m.
 Proof.
@@ -568,7 +648,7 @@ Proof.
       right. exists m. apply (exposed_served s RSet false n m ASet); [discriminate|].
       unfold Expose.may_serve. simpl. split; [auto|]. split; [auto|]. split; [|auto]. split; [auto|]. exists None, bs, d. auto.
   - assert (K : forall a k, (a = AGet /\ k = RGet) \/ (a = ASet /\ k = RSet) ->
-       (exists m, serve quirks_none s {| r_kind := k; r_oneway := false; r_names := [NStr n] |} = ([(m, a)], RepResult)) ->
+       (exists m, serve quirks_none s (mkreq k false [NStr n]) = ([(m, a)], RepResult)) ->
        In n (class_names s) /\ negb (is_private n) && match class_lookup s n with Some m => is_prop m && exposed s m | None => false end = true).
     { intros a k Hk [m H]. apply serve_result_core in H.
       assert (H' : serve_attr quirks_none s a (NStr n) = ([(m, a)], true)).
@@ -593,7 +673,7 @@ Qed.
 Lemma meta_methods_exact_asis : forall s n,
   plain_shape s = true -> no_shadow s = true -> (In n (meta_methods is_private s) <-> runs_call quirks_asis s n).
 Proof.
-  intros s n Hp Hs. unfold runs_call. rewrite (plain_agrees quirks_asis s _ repaired_asis Hp). apply meta_methods_exact; auto.
+  intros s n Hp Hs. unfold runs_call. rewrite (plain_agrees quirks_asis s _ repaired_asis indexed_asis Hp). apply meta_methods_exact; auto.
 Qed.
 
 (* ---------- the metadata cache over a history of get_metadata calls on several registered objects ---------- *)
